@@ -121,11 +121,14 @@ def scan_items(src, modpath):
     their names appended to modpath)."""
     src = strip_comments(src)
     items = []
+    modranges = []
+    for mm_ in re.finditer(r'\bmod\s+([A-Za-z_]\w*)\s*\{', src):
+        modranges.append((mm_.end(), _balanced_block(src, mm_.end() - 1), mm_.group(1)))
     for m in re.finditer(r'\b(pub(?:\([^)]*\))?\s+)?(enum|struct)\s+([A-Za-z_]\w*)', src):
         kind = m.group(2)
         name = m.group(3)
         # determine the module nesting by scanning `mod X {` blocks enclosing m.start()
-        sub = _enclosing_mods(src, m.start())
+        sub = [nm for (a, b, nm) in modranges if a <= m.start() <= b]
         path = '::'.join([p for p in [modpath] + sub if p])
         j = m.end()
         # skip generics / where clause up to '{' or '(' or ';'
@@ -253,7 +256,24 @@ class Registry:
             return None
         return None
     def enum_def(self, head):
+        if head.endswith('__tokio_select_util::Out'):
+            return self._select_out(head)
         return self._pick(self.enums, head)
+    def _select_out(self, head):
+        """tokio::select!'s per-use output enum: variants _0.._{N-1}, Disabled (N = BRANCHES const)."""
+        cache = self.__dict__.setdefault('_out_cache', {})
+        if head in cache:
+            return cache[head]
+        owner = head[:-len('::__tokio_select_util::Out')]
+        n = None
+        for k, v in self.__dict__.get('select_branches', {}).items():
+            if owner.endswith(k) or k.endswith(owner):
+                n = v
+        if n is None:
+            return None
+        e = EnumDef('Out', owner + '::__tokio_select_util', [('_%d' % i, i, None) for i in range(n)] + [('Disabled', n, None)])
+        cache[head] = e
+        return e
     def struct_def(self, head):
         return self._pick(self.structs, head)
     def canon_enum(self, head):
@@ -357,6 +377,13 @@ class ProgramIndex:
         self.children = {}       # parent body name -> [Body]
         for b in self.prog.bodies:
             self._index(b)
+        sb = {}
+        for k, v in self.prog.simple_consts.items():
+            if k.endswith('::BRANCHES'):
+                mm = re.match(r'^(\d+)_u32$', v)
+                if mm:
+                    sb[norm_callee(k[:-len('::BRANCHES')])] = int(mm.group(1))
+        registry.select_branches = sb
 
     def _index(self, b):
         name = b.name
@@ -442,6 +469,17 @@ class ProgramIndex:
         return None
 
     # ---- constants --------------------------------------------------------------------
+    def simple_const(self, raw, name):
+        sc = self.prog.simple_consts
+        if not sc:
+            return None
+        if raw in sc:
+            return sc[raw]
+        for k, v in sc.items():
+            if raw.endswith('::' + k) or name.endswith('::' + norm_callee(k)) or norm_callee(k) == name:
+                return v
+        return None
+
     def const_body(self, raw, name, body):
         b = self.consts.get(raw) or self.consts.get(name)
         if b is not None:
@@ -496,21 +534,30 @@ class ProgramIndex:
             if parent is not None:
                 res = self.prog.get(parent.name + '::{closure#0}')
         if res is None and created is not None:
-            span = head[1:-1]
-            span = span.split('@', 1)[1] if '@' in span else span
+            span = _span_of(head)
             for cb in self.children.get(created, []):
                 if cb.kind == 'fn' and cb.params and span in cb.params[0][1]:
                     res = cb
                     break
+        if res is None and created is not None and head.startswith('{coroutine'):
+            # coroutine literal inside an `async fn`: its body is <fn>::{closure#0} with param `{async fn body of ..}`
+            cands = [cb for cb in self.children.get(created, []) if cb.kind == 'fn' and cb.params
+                     and 'async fn body of' in cb.params[0][1] and re.search(r'\{closure#\d+\}$', cb.name)]
+            if len(cands) == 1:
+                res = cands[0]
         if res is None:
-            span = head[1:-1]
-            span = span.split('@', 1)[1] if '@' in span else span
+            span = _span_of(head)
             hits = [b for b in self.prog.bodies if b.kind == 'fn' and b.params and span in b.params[0][1]
                     and re.search(r'\{closure#\d+\}$', b.name)]
             if len(hits) == 1:
                 res = hits[0]
         cache[key] = res
         return res
+
+def _span_of(head):
+    span = head[1:-1]
+    span = span.split('@', 1)[1] if '@' in span else span
+    return re.sub(r' \(#\d+\)$', '', span)
 
 def build_registry():
     reg = Registry()
